@@ -384,6 +384,10 @@ def battery(ureg, model, nit, path):
             raise Violation("group_missing", f"[{path}/{nit}] {g['name']}")
         if set(grp.members) != want:
             raise Violation("group_members_not_as_written", f"[{path}/{nit}] {g['name']}: {sorted(grp.members)} vs {sorted(want)}")
+        # what the block itself lists (as opposed to what it inherits through 'using'), asked after the members were computed and again
+        own = set(g.get("members", g.get("units", [])))
+        if g["name"] != "root" and own and (model.get("defaults") or {}).get("group") != g["name"] and (set(grp.non_inherited_unit_names) != own or set(grp.members) != want):
+            raise Violation("group_own_units_not_as_written", f"[{path}/{nit}] {g['name']}: non_inherited_unit_names = {sorted(grp.non_inherited_unit_names)}, the block lists {sorted(own)}")
         if path != "define":
             for m in sorted(want)[:2]:
                 got = {next(iter(x._units)) for x in ureg.get_compatible_units(m, g["name"])}
